@@ -108,15 +108,15 @@ let do_op (s : st) (f : string list) : st * string =
   | ["XR"] -> (st1 s CloseR, "XR")
   | ["XP"; k] -> (st1 s (CloseP (ns k)), "XP")
   | ["XQ"; cid; sid; key; to_; pick] ->
-    (* close of the shard wins the shard lock: CloseP ; ProposeA ; ProposeB *)
-    let s0 = st1 s (CloseP (ns key)) in
-    if ns to_ = N0 then (s0, "XQ-:3")
+    (* propose held at its first shard-lock section, then alone to its end, then the shard is
+       closed: ProposeA ; ProposeB ; CloseP *)
+    if ns to_ = N0 then (st1 s (CloseP (ns key)), "XQ-:3")
     else begin
-      let rid = nreqs s0 in
-      let s1 = st1 s0 (ProposeA (ns cid, ns sid, ns key, ns to_, ns pick)) in
+      let rid = nreqs s in
+      let s1 = st1 s (ProposeA (ns cid, ns sid, ns key, ns to_, ns pick)) in
       let out = proposeB_outcome s1 in
       let s2 = st1 s1 (ProposeB rid) in
-      (s2, Printf.sprintf "XQ%s:%s" (si rid) (si out))
+      (st1 s2 (CloseP (ns key)), Printf.sprintf "XQ%s:%s" (si rid) (si out))
     end
   | ["XC"] -> (st1 s CloseC, "XC")
   | ["XS"] -> (st1 s CloseS, "XS")
